@@ -34,7 +34,7 @@ CLAIMED = {
     'C04': ('6 C04', 'construction histories (assignment orders, explicit/implicit DEFAULTs, decode of every reference form, clones, read-only uses) of one abstract value: DER/CER equal across histories and equal to the reference DER; decode/re-encode fixpoint'),
     'C10': ('6 C10', 'every input a guided decoder accepts (neighbour-type encodings and mutations) judged by the independent well-typedness evaluator spec/WellTyped.tla, then re-encode/re-decode fixpoint'),
     'C12': ('6 C12', 'Session.tla (interleavings of suspended decoders, one-shot calls, debug switch) model-checked; recorded interleavings on one shared schema object, snapshots around every call, outcomes vs isolated runs, debug on, threads (sampled), judged by Trace_Session'),
-    'C14': ('6 C14', 'generator machine spec/Constraint.tla: every (expression tree, candidate), derivation chain and value-producing operation state replayed into pyasn1 and compared with the set-theoretic verdict; BIT STRING and OBJECT IDENTIFIER operation histories of spec/BitStr.tla / spec/Oid.tla replayed observable by observable'),
+    'C14': ('6 C14', 'generator machine spec/Constraint.tla: every (expression tree, candidate), derivation chain and value-producing operation state replayed into pyasn1 and compared with the set-theoretic verdict; operator-history and construction machines of the scalar types (spec/BitStr.tla, Oid.tla, ScalarObj.tla, CharStr.tla, NamedVals.tla, RealObj.tla) replayed observable by observable'),
     'C17': ('6 C17', 'native round trip judged by Norm equality; Python-value+schema encodings compared octet for octet with value-object encodings'),
     'C18': ('6 C18', 'open-type matrix (container x field x tagging x governor x inner type x maps x codec x resolution) judged by JudgeOpen against the reference encoding of the inner value'),
     'C19': ('6 C19', 'object machines of spec/Container.tla (list / dict / at-most-one) as trace acceptor over all operation sequences of length 3 + random longer ones on real SEQUENCE OF (incl. slice reads/assignments), SEQUENCE, SET (incl. tag-addressed access) and CHOICE objects; named deviation F18 modelled exactly'),
@@ -57,7 +57,7 @@ m = {'version': 1, 'setup_cmd': './setup.sh',
      'hooks': {'guard': 'PYASN1_VERIF_TRACE', 'enable': 'PYASN1_VERIF_TRACE=1 in the environment when pyasn1.codec.ber.decoder is imported turns its module attribute TRACE from None into a list that receives one tuple per state block of SingleItemDecoder.__call__ (enter / state / spec / eoo / exit); only harness/sm_collect.py (a subprocess of the C08 check) sets it. Every other observation comes from the stream doubles of the harness (read/seek/tell/mark); checks import pyasn1 from /repo (PYTHONPATH)',
                'baseline_off_cmd': 'cd /repo && /venv/bin/python -m pytest -q -p no:cacheprovider', 'source_commits': ['878a9983950d7242f39e51c3981c9e6e85a3d488', 'ed241affb376971ec9fbbb491da7c2b1333ab773'], 'add_only': True},
      'engines': [{'name': 'tlc+trace', 'path': 'harness/', 'serves_properties': sorted(CLAIMED),
-                  'kind_free_text': 'TLC 1.8 model checking of spec/*.tla + replay into pyasn1 + TLC trace acceptors'}],
+                  'kind_free_text': 'TLC 1.8 model checking of spec/*.tla + replay into pyasn1 + TLC trace acceptors; Apalache 0.58 (inductive invariant of the cache bookkeeping, C11) and TLAPS (rank theorem of the dispatch walk, C08; tag laws, C13) for the unbounded lemmas'}],
      'checks': checks, 'not_applicable': na,
      'notes': 'Fix commits in /repo and known findings are listed in known_findings.json and DESIGN.md.'}
 json.dump(m, open(os.path.join(VERIF, 'MANIFEST.json'), 'w'), indent=1)
